@@ -2,6 +2,7 @@
 # ./matrix.sh [mutants|seeded|all]   re-runs every self-test mutant and every stored seeded
 # change against the checks named for it (quick tier) and writes CATCH_MATRIX.md.
 # Not a registered check; used to keep DESIGN.md's catch table honest.
+V="$(cd "$(dirname "$0")" && pwd)"   # the /verif tree these scripts belong to (also a snapshot of it)
 set -u
 cd "$(dirname "$0")"
 WHAT="${1:-all}"
